@@ -6,7 +6,7 @@ from .. import gen
 
 def worklist_program(rng, pid, dev, nops, unit=Fraction(1), maxunits=16, wlmax=None, fault=0.0, fault_last=False,
                      comps=True, big_geom=False, small=True, autosplit=True, diti=False, direct=False, flags=None,
-                     weights=None, transfer_kw=None, big_factor=3, labware_kw=False, emit_prob=0.0):
+                     weights=None, transfer_kw=None, big_factor=3, labware_kw=False, emit_prob=0.0, reconfig_prob=0.0):
     """Generate (by driving the implementation) one program. Returns the replayable program."""
     lws = gen.random_labware(rng, small=small, maxunits=maxunits, big_geom=big_geom)
     wlmax = wlmax if wlmax is not None else rng.choice([2, 3, 5, maxunits])
@@ -28,6 +28,17 @@ def worklist_program(rng, pid, dev, nops, unit=Fraction(1), maxunits=16, wlmax=N
                 args = {"text": rng.choice(["note", "two\nlines", "", " padded "])} if fn == "comment" else (
                     {"scheme": {"cls": "int", "v": rng.randint(1, 4)}} if fn == "wash" else {})
                 sess.do({"op": "emit", "fn": fn, "args": args}, {})
+            if reconfig_prob and rng.random() < reconfig_prob:
+                # the caller assigns the public attributes max_volume / auto_split between two operations
+                cfg = {"op": "setconfig"}
+                if rng.random() < 0.8:
+                    wlmax = rng.choice([m for m in (1, 2, 3, 5, maxunits, 2 * maxunits) if m != wlmax])
+                    cfg["maxv"] = wlmax
+                if "maxv" not in cfg or rng.random() < 0.3:
+                    autosplit = not autosplit
+                    cfg["autosplit"] = autosplit
+                big = max(1, big_factor * wlmax if autosplit else wlmax)
+                sess.do(cfg, {})
             kind = rng.choice(kinds)
             if kind == "transfer":
                 tk = dict(transfer_kw or {})
